@@ -70,7 +70,23 @@ def p_symbytes(name_hint=None, cond=None, desc="bytes of symbolic length"):
         if cond is not None:
             c = z3.And(c, cond(n))
         return [(c, symbytes(n, a))]
-    return Maker(mk, desc=desc)
+
+    def co(v):
+        if isinstance(v, VBytes):
+            return symbytes(*arr_of(v)), None
+        return v, None
+    return Maker(mk, desc=desc, coerce=co)
+
+
+def seq_eq(na, aa, nb, ab):
+    """Equality of two byte sequences given as (length, array)."""
+    k = z3.Int("k!eq")
+    return z3.And(na == nb, z3.ForAll([k], z3.Implies(z3.And(k >= 0, k < na), z3.Select(aa, k) == z3.Select(ab, k))))
+
+
+def view(a, lo):
+    k = z3.Int("k!view")
+    return z3.Lambda([k], z3.Select(a, lo + k))
 
 
 def blk(arr, j):
@@ -153,7 +169,7 @@ class C20Executor(Executor):
             try:
                 kn, ka = arr_of(idx)
                 if isinstance(v, VExt) and v.sort == "RoundKeys":
-                    ok = v.t == KEXP(kn, ka)
+                    ok = z3.And(v.t == KEXP(kn, ka), z3.Or(kn == 16, kn == 24, kn == 32))
             except Unsupported:
                 pass
             self.add_vc("cache-invariant", "stored-value-is-key-expansion-of-its-key", st.pc, ok, loc=self.loc(node))
@@ -201,9 +217,8 @@ class C20Executor(Executor):
         if op == "Add" and (self._is_symb(a) or self._is_symb(b)) and self._bytes_like(a) and self._bytes_like(b):
             na, aa = arr_of(a)
             nb, ab = arr_of(b)
-            k = z3.Int(fresh_name("k"))
-            r = z3.Array(fresh_name("concat"), I, BV8)
-            st.assume(z3.ForAll([k], z3.Select(r, k) == z3.If(k < na, z3.Select(aa, k), z3.Select(ab, k - na))))
+            k = z3.Int("k!cat")
+            r = z3.Lambda([k], z3.If(k < na, z3.Select(aa, k), z3.Select(ab, k - na)))
             return [(st, symbytes(na + nb, r))]
         if op == "Mult" and isinstance(a, VBytes) and len(a.items) == 1 and isinstance(b, VInt) and b.const() is None:
             n = ops.int_term(b)
@@ -221,13 +236,11 @@ class C20Executor(Executor):
         if self._is_symb(base):
             out = []
             for (s2, v) in r:
-                # rebuild an array view: v[i] == base[lo + i]
-                n0, a0 = base.tag[1], base.tag[2]
+                # array view of the slice as a lambda: v[k] == base[lo + k]  (no auxiliary axiom)
+                a0 = base.tag[2]
                 lo = self._slice_lo(st, base, sl, node)
-                k = z3.Int(fresh_name("k"))
-                arr = z3.Array(fresh_name("slice"), I, BV8)
-                s2.assume(z3.ForAll([k], z3.Select(arr, k) == z3.Select(a0, lo + k)))
-                out.append((s2, symbytes(v.length, arr)))
+                k = z3.Int("k!slice")
+                out.append((s2, symbytes(v.length, z3.Lambda([k], z3.Select(a0, lo + k)))))
             return out
         return r
 
@@ -242,8 +255,7 @@ class C20Executor(Executor):
         if op in ("Eq", "NotEq") and self._bytes_like(a) and self._bytes_like(b) and (self._is_symb(a) or self._is_symb(b)):
             na, aa = arr_of(a)
             nb, ab = arr_of(b)
-            k = z3.Int(fresh_name("k"))
-            eq = z3.And(na == nb, z3.ForAll([k], z3.Implies(z3.And(k >= 0, k < na), z3.Select(aa, k) == z3.Select(ab, k))))
+            eq = seq_eq(na, aa, nb, ab)
             return [(st, VBool(eq if op == "Eq" else z3.Not(eq)))]
         return super().compare(st, op, a, b, node)
 
@@ -251,3 +263,41 @@ class C20Executor(Executor):
         if isinstance(v, VExt) and v.sort == "RoundKeys":
             return VBool(True)
         return super().truth(st, v)
+
+
+# ------------------------------------------------------------- spec relations --
+def chain(j, iva, ca):
+    """previous ciphertext block of block j: the IV for j == 0"""
+    return [z3.If(j == 0, z3.Select(iva, u), z3.Select(ca, 16 * (j - 1) + u)) for u in range(16)]
+
+
+def ecb_at(fns, rk, a, ra, nblocks, j):
+    return z3.Implies(z3.And(j >= 0, j < nblocks), z3.And([z3.Select(ra, 16 * j + t) == fns[t](rk, *blk(a, j)) for t in range(16)]))
+
+
+def cbc_enc_at(rk, iva, a, ra, nblocks, j):
+    x = [p_ ^ c_ for p_, c_ in zip(blk(a, j), chain(j, iva, ra))]
+    return z3.Implies(z3.And(j >= 0, j < nblocks), z3.And([z3.Select(ra, 16 * j + t) == CIPH[t](rk, *x) for t in range(16)]))
+
+
+def cbc_dec_at(rk, iva, a, ra, nblocks, j):
+    prev = chain(j, iva, a)
+    return z3.Implies(z3.And(j >= 0, j < nblocks),
+                      z3.And([z3.Select(ra, 16 * j + t) == DECIPH[t](rk, *blk(a, j)) ^ prev[t] for t in range(16)]))
+
+
+def pad_rel(n, a, rn, ra):
+    """ra[0:rn] is a[0:n] followed by p bytes of value p, p = 16 - n % 16"""
+    p = 16 - n % 16
+    return z3.And(rn == n + p, seq_eq(n, ra, n, a), seq_eq(p, view(ra, n), p, z3.K(I, z3.Int2BV(p, 8))))
+
+
+def valid_padding(n, a):
+    last = z3.Select(a, n - 1)
+    p = z3.BV2Int(last)
+    return z3.And(p >= 1, p <= 16, p <= n, seq_eq(p, view(a, n - p), p, z3.K(I, last)))
+
+
+def unpad_rel(n, a, rn, ra):
+    p = z3.BV2Int(z3.Select(a, n - 1))
+    return z3.If(n == 0, rn == 0, z3.And(valid_padding(n, a), rn == n - p, seq_eq(rn, ra, rn, a)))
